@@ -198,17 +198,9 @@ Corollary tie_join_v1_isValid_jsize w opts :
 Proof. intros H. apply (proj1 (proj2 (tie_join_v1_isValid w opts))) in H. lia. Qed.
 
 (* v1: the no-copy mode is `Released != nil` (jcfg.nocopy) *)
-Theorem tie_join_v1_prepareItem w dsc item : J1.gen_prepareItem w dsc item = (w, dsc, item).
-Proof. unfold J1.gen_prepareItem. cbn. destruct (is_nil (J1.Opts_Released (J1.Discipline_opts dsc))); reflexivity. Qed.
 
 (* v1 resetJoin: the accumulation becomes empty unless the last slice was never released (then nothing changes:
    the model's AwaitRel/Abort step keeps buf and sets unrel, GenTieMiscBase.model_unreleased_keeps_buffer) *)
-Theorem tie_join_v1_resetJoin w dsc :
-  J1.gen_resetJoin w dsc =
-  (w, if J1.Discipline_unreleased dsc then dsc
-      else J1.mk_Discipline (J1.Discipline_opts dsc) (J1.Discipline_breaker dsc) (J1.Discipline_interruptInterval dsc) []
-             (J1.Discipline_output dsc) (J1.Discipline_passAt dsc) false, tt).
-Proof. unfold J1.gen_resetJoin. cbn. destruct dsc as [o b i j out p []]; reflexivity. Qed.
 
 (* ---------------------------------------------------------------- examples: no theorem is vacuous --------------- *)
 
@@ -252,16 +244,6 @@ Proof.
   - now apply (tie_join_v1_isValid 7 (J1.mk_Opts None None 0 None 0 0)).
   - apply (tie_join_v1_isValid 7 (J1.mk_Opts None (Some tt) 0 None 0 0)). cbn. split; [discriminate|reflexivity].
 Qed.
-Example ex_join_v1_prepareItem :
-  J1.gen_prepareItem 7 (J1.mk_Discipline (J1.mk_Opts (Some tt) (Some tt) 4 (Some tt) 0 25) (Some tt) 0 [1;2]%N (Some tt) tt false) [1;2]%N =
-  (7%nat, J1.mk_Discipline (J1.mk_Opts (Some tt) (Some tt) 4 (Some tt) 0 25) (Some tt) 0 [1;2]%N (Some tt) tt false, [1;2]%N).
-Proof. apply tie_join_v1_prepareItem. Qed.
-Example ex_join_v1_resetJoin :
-  J1.gen_resetJoin 7 (J1.mk_Discipline (J1.mk_Opts (Some tt) (Some tt) 4 (Some tt) 0 25) (Some tt) 0 [1;2]%N (Some tt) tt false) =
-  (7%nat, J1.mk_Discipline (J1.mk_Opts (Some tt) (Some tt) 4 (Some tt) 0 25) (Some tt) 0 [] (Some tt) tt false, tt) /\
-  J1.gen_resetJoin 7 (J1.mk_Discipline (J1.mk_Opts (Some tt) (Some tt) 4 (Some tt) 0 25) (Some tt) 0 [1;2]%N (Some tt) tt true) =
-  (7%nat, J1.mk_Discipline (J1.mk_Opts (Some tt) (Some tt) 4 (Some tt) 0 25) (Some tt) 0 [1;2]%N (Some tt) tt true, tt).
-Proof. rewrite !tie_join_v1_resetJoin. split; reflexivity. Qed.
 
 (* ---------------------------------------------------------------- assumptions ------------------------------------ *)
 Print Assumptions tie_join_v1_calcInterruptInterval.
@@ -273,5 +255,3 @@ Print Assumptions tie_join_v1_normalize_ctx.
 Print Assumptions tie_join_v1_calcInterruptInterval_normalized.
 Print Assumptions tie_join_v1_isValid.
 Print Assumptions tie_join_v1_isValid_jsize.
-Print Assumptions tie_join_v1_prepareItem.
-Print Assumptions tie_join_v1_resetJoin.
